@@ -274,6 +274,23 @@ def install_crosshair_patches():
     _core._PATCH_REGISTRATIONS[_ft._lru_cache_wrapper.__call__] = lru_call
     _core._PATCH_REGISTRATIONS[_ft._lru_cache_wrapper.cache_clear] = lru_clear
 
+    # explicit allocations sized by an integer: bytes(n) / bytearray(n).  A request far beyond any input size is recorded (the
+    # harness of a property about memory use reads STATE["alloc_alarm"]) and answered with MemoryError, as a small machine would.
+    for _typ in (bytes, bytearray):
+        _orig_alloc = _core._PATCH_REGISTRATIONS.get(_typ)
+        if _orig_alloc is None:
+            continue
+
+        def alloc_patch(*a, _orig=_orig_alloc, **kw):
+            if len(a) == 1 and not kw and isinstance(a[0], int) and not isinstance(a[0], bool):
+                if a[0] > ALLOC_LIMIT:
+                    with NoTracing():
+                        STATE["alloc_alarm"] = True
+                    raise MemoryError("allocation request beyond the modelled limit")
+            return _orig(*a, **kw)
+
+        _core._PATCH_REGISTRATIONS[_typ] = alloc_patch
+
     def ljust(self, width, fill=b" "):
         n = len(self)
         if width <= n:
@@ -284,6 +301,7 @@ def install_crosshair_patches():
 
 
 FORMAT_MARKER = "SYM"
+ALLOC_LIMIT = 1 << 20  # bytes(n) / bytearray(n) above this are flagged (inputs of the harnesses are a few dozen bytes)
 LRU_MEMO = {}
 
 
@@ -302,6 +320,7 @@ def run_harness(harness, budget_s: float, per_path_s: float = 60.0, twin: bool =
         with NoTracing():
             STATE["paths"] += 1
             STATE["leaves"] = {}
+            STATE["alloc_alarm"] = False
             LRU_MEMO.clear()
         try:
             return harness()
